@@ -49,6 +49,18 @@ def gen_many_rows(rng):
     return {"records": recs, "final_newline": True}
 
 
+def gen_huge_line(rng):
+    """Scale outlier: one unwrapped record whose single line is longer than a mebibyte."""
+    L = (1 << 20) + rng.randint(1000, 200_000)
+    unit = "".join(rng.choice(_ACGT) for _ in range(997))
+    seq = (unit * (L // len(unit) + 1))[:L]
+    cut = rng.randrange(1000, L - 5000)
+    seq = seq[:cut] + "N" * rng.choice([1, 100, 3000]) + seq[cut:]
+    recs = [{"name": "huge", "desc": "", "seq": seq, "width": len(seq), "crlf": False},
+            {"name": "small", "desc": "", "seq": gen_seq(rng, 30), "width": 60, "crlf": False}]
+    return {"records": recs, "final_newline": True}
+
+
 def gen_many_records(rng):
     """Scale outlier: well over a thousand short records."""
     n = rng.randint(1050, 1400)
